@@ -114,5 +114,5 @@ func corrKeys(r *Rng, st *Stats, cf *CoqFile, n int) string {
 	cf.AddCases("canprint", "qcfg * list Z * bool", "check_canprint", cp)
 	cf.AddCases("strkey", "qcfg * bool * list Z * bytes", "check_strkey", sk)
 	cf.AddCases("dotname", "qcfg * list Z * bytes", "check_dot", dt)
-	return "Definition R_strkey_spec := Eval vm_compute in (check_strkey_spec strkey).\nPrint R_strkey_spec.\n"
+	return "Definition R_strkey_spec := Eval vm_compute in (check_strkey_spec strkey).\nPrint R_strkey_spec.\nDefinition R_dotname_spec := Eval vm_compute in (check_dot_spec dotname).\nPrint R_dotname_spec.\n"
 }
